@@ -24,15 +24,26 @@ class Engine:
         self.e2n = prj.func(f"{GSM}.Expression:expression_to_nfa")
         self.n2d = prj.func(f"{GSM}.Expression:nfa_to_dfa")
 
-    def expr(self, p: Pat):
-        """the repo-level expression value of a pattern tree"""
+    def expr(self, p: Pat, shared: dict | None = None):
+        """the repo-level expression value of a pattern tree; with `shared`, a tree node that occurs more than once
+        (the same Pat object) becomes ONE operator object used at every occurrence"""
         if p.op == "atom":
             return p.pred.args[0]            # a plain item: the engine wraps it in Atom / Identity itself
         if p.op == "seq":
-            return [self.expr(k) for k in p.kids]
+            return [self.expr(k, shared) for k in p.kids]
+        if shared is not None and id(p) in shared:
+            return shared[id(p)]
         ci = self.ops[CLS[p.op]]
-        args = [self.expr(k) for k in p.kids]
-        return self.it.construct(ci, args, {}, None, self.e2n)
+        args = [self.expr(k, shared) for k in p.kids]
+        obj = self.it.construct(ci, args, {}, None, self.e2n)
+        if shared is not None:
+            shared[id(p)] = obj
+        return obj
+
+    def dfa_of(self, expr):
+        self.it.steps = 0
+        nfa = self.it.call(self.e2n, [expr], {})
+        return self.it.call(self.n2d, [nfa], {})
 
     def nfa(self, p: Pat):
         self.it.steps = 0
